@@ -6,7 +6,7 @@
 
 (def scratch (os/getenv "VERIF_SBX_SCRATCH"))
 (def thread-mode (os/getenv "VERIF_SBX_THREAD"))   # "1": waiting ev/thread, "2": detached (:n) thread
-(def in-thread (or (= "1" thread-mode) (= "2" thread-mode)))
+(def in-thread (or (= "1" thread-mode) (= "2" thread-mode) (= "3" thread-mode)))
 (def marker (string scratch "/marker"))
 (def newpath (string scratch "/newfile"))
 
@@ -93,9 +93,10 @@
   # also used by ev/spawn-thread) and waits for its report on a thread channel.
   (try
     (ev/with-deadline 5
-      (if (= "2" thread-mode)
+      (if (or (= "2" thread-mode) (= "3" thread-mode))
         (let [tc (ev/thread-chan 1)]
-          (ev/thread thread-body [f specs scratch tc] :n)
+          # mode 3: additionally the :a flag (the thread does not copy the abstract registry)
+          (ev/thread thread-body [f specs scratch tc] (if (= "3" thread-mode) :na :n))
           (ev/take tc))
         (do (ev/thread thread-body [f specs scratch nil]) "ret")))
     ([e] (string "thread-failed: " e))))
